@@ -16,6 +16,7 @@ package scanner
 
 import (
 	"container/list"
+	"sync"
 	"time"
 )
 
@@ -25,6 +26,9 @@ type compactRecord struct {
 }
 
 type compactRecordQueue struct {
+	// mu guards list: compactions can run concurrently (client Compact requests, the leader's compact loop).
+	// push takes it itself; head and pop are called with it held (see scanner.getTimeoutRevision)
+	mu   sync.Mutex
 	list *list.List
 }
 
@@ -35,13 +39,17 @@ func newCompactRecordQueue() *compactRecordQueue {
 }
 
 func (c *compactRecordQueue) push(cr *compactRecord) {
+	c.mu.Lock()
+	defer c.mu.Unlock()
 	c.list.PushBack(cr)
 }
 
+// pop removes the oldest record; the caller holds c.mu
 func (c *compactRecordQueue) pop() {
 	c.list.Remove(c.list.Front())
 }
 
+// head returns the oldest record; the caller holds c.mu
 func (c *compactRecordQueue) head() *compactRecord {
 	elem := c.list.Front()
 	if elem == nil {
